@@ -411,10 +411,21 @@ impl<'a, T: ColumnProvider> ExpressionExecutionEngine<'a, T> {
                     Function::MakeTimestamp if arguments.len() == 8 => {
                         match (&executed_arguments[0], &executed_arguments[1], &executed_arguments[2], &executed_arguments[3], &executed_arguments[4], &executed_arguments[5], &executed_arguments[6]) {
                             (Value::Int(year), Value::Int(month), Value::Int(day), Value::Int(hour), Value::Int(minute), Value::Int(second), Value::Int(microsecond)) => {
+                                // Parts that do not fit their field are not valid date parts (they must not wrap around)
+                                let parts = [*month, *day, *hour, *minute, *second, *microsecond]
+                                    .iter()
+                                    .map(|part| u32::try_from(*part).ok())
+                                    .collect::<Option<Vec<_>>>();
+
                                 Ok(
-                                    create_timestamp(*year as i32, *month as u32, *day as u32, *hour as u32, *minute as u32, *second as u32, *microsecond as u32)
-                                        .map(|timestamp| Value::Timestamp(timestamp))
-                                        .unwrap_or(Value::Null)
+                                    match (i32::try_from(*year), parts) {
+                                        (Ok(year), Some(parts)) => {
+                                            create_timestamp(year, parts[0], parts[1], parts[2], parts[3], parts[4], parts[5])
+                                                .map(|timestamp| Value::Timestamp(timestamp))
+                                                .unwrap_or(Value::Null)
+                                        }
+                                        _ => Value::Null
+                                    }
                                 )
                             }
                             _ => Err(EvaluationError::UndefinedFunction(function.clone(), executed_arguments_types))
